@@ -35,9 +35,7 @@
 #include <unistd.h>
 #include <errno.h>
 #include <zck.h>
-#ifdef _WIN32
 #include <fcntl.h>
-#endif
 
 #include "zck_private.h"
 
@@ -210,6 +208,20 @@ int get_tmp_fd(zckCtx *zck) {
         set_error(zck, "Unable to create temporary file");
         return -1;
     }
+#ifndef _WIN32
+    /* A temp_fd of 0 means "no temporary file" to the rest of the library, so
+     * if stdin was closed and we were handed descriptor 0, move off it */
+    if(temp_fd == 0) {
+        temp_fd = fcntl(0, F_DUPFD, 3);
+        close(0);
+        if(temp_fd < 0) {
+            unlink(fname);
+            free(fname);
+            set_error(zck, "Unable to create temporary file");
+            return -1;
+        }
+    }
+#endif
 #ifndef _WIN32
     // Files with open file handle cannot be removed on Windows
     if(unlink(fname) < 0) {
